@@ -995,7 +995,7 @@ def C04(V, tier):
     if not q:
         matrix += [({"mode": "local", "par": 4}, "single"), ({"mode": "remote", "hosts": [2, 2]}, "fixed:1"),
                    ({"mode": "remote", "hosts": [1, 3]}, "adaptive:3:200")]
-    _focused(V, tier, "C04", progs, checks=("sinks", "link"), matrix=matrix, perturb_us=300, hang_ms=12000)
+    _focused(V, tier, "C04", progs, checks=("sinks", "link"), matrix=matrix, perturb_us=300, hang_ms=20000)
     # the witness of the open finding F9 (iterate with an amplifying body under single-element batches): it
     # hangs on some schedules only; a hang of exactly this class is the known finding, nothing else is
     wit = {"name": "f9witness", "prop": "C04", "prog": {"nodes": [
